@@ -139,7 +139,7 @@ class RefsWorld:
                 continue
             if rng.random() < rr:
                 k = weighted(rng, [('plain_bad', 3), ('link_bad', 4), ('const', 2), ('ro', 1), ('clsset', 1), ('update_bad', 2), ('ctor_bad', 1.5),
-                                   ('reent', 2.5)])
+                                   ('reent', 2.5), ('batch_reject', 1.5)])
                 after_reject = 2
             else:
                 k = weighted(rng, [('src', 8), ('link', 5), ('plain', 2.5), ('update1', 1), ('uctx_open', 1), ('uctx_close', 1.2), ('ctor', 0.6),
@@ -156,10 +156,10 @@ class RefsWorld:
                 ops.append({'op': 'plain', 't': t, 'p': pn, 'v': v})
             elif k == 'update1':
                 v = {'a': rng.randint(0, 10), 'b': rng.randint(0, 10), 'c': [rng.randint(0, 9)], 't': f"v{rng.randint(0, 9)}"}[pn]
-                ops.append({'op': 'update1', 't': t, 'p': pn, 'v': v})
+                ops.append({'op': 'update1', 't': t, 'p': pn, 'v': v, 'form': rng.choice(['kw', 'kw', 'dict', 'dict+kw', 'pairs'])})
             elif k == 'uctx_open':
                 v = {'a': rng.randint(0, 10), 'b': rng.randint(0, 10), 'c': [rng.randint(0, 9)], 't': f"v{rng.randint(0, 9)}"}[pn]
-                ops.append({'op': 'uctx_open', 't': t, 'p': pn, 'v': v})
+                ops.append({'op': 'uctx_open', 't': t, 'p': pn, 'v': v, 'form': rng.choice(['kw', 'kw', 'dict', 'dict+kw', 'pairs'])})
             elif k == 'uctx_close':
                 ops.append({'op': 'uctx_close', 't': t})
             elif k == 'ctor':
@@ -185,6 +185,8 @@ class RefsWorld:
                     ref = {'k': 'param', 's': ref['s'], 'p': 'x'}
                 ops.append({'op': 'src', 's': ref['s'], 'p': ref.get('p', 'x'), 'v': rng.randint(11, 15), 'quiet': True})
                 ops.append({'op': 'link', 't': t, 'p': pn, 'ref': ref})
+            elif k == 'batch_reject':
+                ops.append({'op': 'batch_reject', 't': t, 'p': rng.choice(['a', 'b']), 'how': rng.choice(['update', 'update', 'plain'])})
             elif k == 'reent':
                 ops.append({'op': 'reent', 't': t, 'p': rng.choice(['a', 'b', 't', 'a']), 'i': rng.randrange(2), 'v': rng.randint(0, 5),
                             'how': rng.choice(['ref', 'ref', 'plain']), 'bs': rng.randrange(ns), 'bp': rng.choice(['x', 'y'])})
@@ -546,6 +548,28 @@ class _Run:
         if k == 'reent':
             self.reentrant(op, ti, t)
             return
+        if k == 'batch_reject':
+            # a rejected update in the middle of batch_call_watchers: the batch goes on deferring as before the attempt
+            import param
+            if self.uctx[ti]:
+                return
+            pn = op['p']
+            other = 'b' if pn == 'a' else 'a'
+            bad = {'a': 12, 'b': -3}[pn]
+            with param.parameterized.batch_call_watchers(t):
+                n0 = len(self.elog)
+                self.do({'op': 'plain', 't': ti, 'p': other, 'v': (int(self.mval[ti][other]) + 1) % 11 if isinstance(self.mval[ti][other], (int, float)) else 1})
+                how = op.get('how', 'update')
+                if how == 'update':
+                    self.attempt(lambda: t.param.update(**{pn: bad}), False, f"update T{ti}.{pn} = {bad!r} inside a batch", ti, pn)
+                else:
+                    self.attempt(lambda: setattr(t, pn, bad), False, f"plain T{ti}.{pn} = {bad!r} inside a batch", ti, pn)
+                self.do({'op': 'plain', 't': ti, 'p': other, 'v': (int(self.mval[ti][other]) + 1) % 11})
+                if len(self.elog) != n0 and not self.out.violations:
+                    self.viol('C02.events', f"after the rejected {how} of T{ti}.{pn} inside batch_call_watchers, a later assignment of the same batch "
+                                            f"was delivered before the batch ended: {self.elog[n0:][:3]}")
+            self.out.stats['probe.rejected_inside_batch'] += 1
+            return
         if k == 'link':
             pn, ref = op['p'], op['ref']
             v = eval_ref(ref, self.msrc)
@@ -572,7 +596,7 @@ class _Run:
             if k == 'plain':
                 fn = lambda: setattr(t, pn, v)      # noqa
             else:
-                fn = lambda: t.param.update(**{pn: v})      # noqa
+                fn = lambda: self.update_call(t, pn, v, op.get('form', 'kw'))      # noqa
             had = pn in self.links[ti]
             if self.attempt(fn, ok, f"{k} T{ti}.{pn} = {v!r}", ti, pn):
                 if had:
@@ -589,7 +613,7 @@ class _Run:
             holder = {}
 
             def fn():
-                holder['cm'] = t.param.update(**{pn: v})
+                holder['cm'] = self.update_call(t, pn, v, op.get('form', 'kw'))
                 holder['cm'].__enter__()
             if self.attempt(fn, True, f"update-context T{ti}.{pn} = {v!r}", ti, pn):
                 self.uctx[ti].append((holder['cm'], pn, self.mval[ti][pn], self.links[ti].get(pn)))
@@ -651,6 +675,17 @@ class _Run:
             self.attempt(lambda: setattr(K, op['p'], op['v']), False, f"class-level {K.__name__}.{op['p']} = {op['v']!r}")
         elif k == 'ctor':
             self.construct(op['kw'])
+
+    @staticmethod
+    def update_call(t, pn, v, form):
+        """the calling conventions of param.update: keywords, a mapping, a mapping plus keywords, an iterable of pairs"""
+        if form == 'dict':
+            return t.param.update({pn: v})
+        if form == 'dict+kw':
+            return t.param.update({}, **{pn: v})
+        if form == 'pairs':
+            return t.param.update([(pn, v)])
+        return t.param.update(**{pn: v})
 
     def reentrant(self, op, ti, t):
         """A rejected assignment made from a watcher of the linked parameter while that parameter is being synchronised from
